@@ -72,9 +72,15 @@ CHECKS = {
    technique="the transition tables of change_status transcribed as a total function in TLA+ (spec/OrderStatus.tla) with laws L1-L5; TLC evaluates the laws on the table over the whole finite domain (spec/OrderStatusMC.tla) and on the results of the real change_status / can_cancel / can_replace / is_finished for every one of the 40 500 points (spec/OrderStatusEval.tla)",
    text="Exhaustive over 15 statuses x {8, 9, F, G, unsupported} x 17 ExecTypes + omitted x 15 reported statuses x both error modes; the laws (closed and only the library's error, finished statuses absorbing, never back to created / pending-new, created accepts only pending-new/rejected, request kinds permitted exactly for new / partially filled / suspended) decide; equality with the transcribed table is conformance.",
    design_ref="5/C16", note="Known finding KF-C16-pinned-cancel-reject-pending-new (two test-pinned rows). " + COMMON_NOTE),
+ "C17": dict(engine="OrderLife",
+   technique="TLA+ model of the client order object (transcribed method by method) against an exchange following the FIX 4.4 order state change matrices with two in-flight queues (spec/OrderLifeFn.tla step function, spec/OrderLife.tla state machine) model-checked by TLC for O1-O5; every maximal behaviour of a bounded instance and TLC -simulate behaviours replayed on a real FIXNewOrderSingle (all reports come from the TLA+ exchange); recorded attributes judged by TLC (spec/OrderLifeEval.tla)",
+   text="All interleavings of new / cancel / replace (qty up, down, price) with pending-new, ack, reject, fills racing with pending requests, pending-cancel/replace reports, cancelled, replaced, request rejects, expire, unsolicited cancel, suspend/resume and with both queues, up to the bounds; at every quiescent point the real object's status, cum, leaves, qty, price must equal the exchange's, finished orders refuse requests, a permitted request builds, uses a fresh ClOrdID with the same root and refers to the live ClOrdID; the status is always an enum member.",
+   design_ref="5/C17", note="Roots, quantity units (integer, fractional, large) and price units are varied per trace by seed. " + COMMON_NOTE),
 }
 
 ENGINES = [
+ dict(name="OrderLife", path="spec/OrderLifeFn.tla spec/OrderLife.tla spec/OrderLifeEval.tla harness/props/c17.py",
+      serves_properties=["C17"], kind_free_text="TLA+ model of order object x FIX exchange x in-flight queues + TLC + replay on the real order object"),
  dict(name="OrderStatus", path="spec/OrderStatus.tla spec/OrderStatusMC.tla spec/OrderStatusEval.tla harness/props/c16.py",
       serves_properties=["C16"], kind_free_text="TLA+ transcription of the order status transition function + laws, evaluated exhaustively by TLC on the model and on the real function"),
  dict(name="GroupCodec", path="spec/GroupCodec.tla spec/GroupCodecMC.tla spec/GroupCodecEval.tla harness/props/c01.py",
